@@ -52,12 +52,12 @@ type witness struct {
 }
 
 type reportedEvent struct {
-	Kind    string      `json:"kind"`
-	Label   string      `json:"label"`
-	What    string      `json:"what"`
-	Count   int         `json:"count"`
-	Witness *witness    `json:"witness,omitempty"`
-	Inputs  []string    `json:"inputs,omitempty"`
+	Kind    string   `json:"kind"`
+	Label   string   `json:"label"`
+	What    string   `json:"what"`
+	Count   int      `json:"count"`
+	Witness *witness `json:"witness,omitempty"`
+	Inputs  []string `json:"inputs,omitempty"`
 }
 
 type harnessRun struct {
@@ -91,7 +91,7 @@ type harnessRun struct {
 	start                                     time.Time
 	limitHit                                  string
 
-	initPkgs []*ssa.Package
+	initPkgs             []*ssa.Package
 	funcSeen, externSeen sync.Map
 
 	pureMu  sync.Mutex
@@ -123,10 +123,10 @@ func (r *harnessRun) noteExtern(n string) {
 	r.externs[n]++
 	r.mu.Unlock()
 }
-func (r *harnessRun) noteStub(n string)   { r.mu.Lock(); r.stubs[n]++; r.mu.Unlock() }
-func (r *harnessRun) noteStale()          { r.mu.Lock(); r.staleObjs++; r.mu.Unlock() }
-func (r *harnessRun) noteCross()          { r.mu.Lock(); r.crossChecks++; r.mu.Unlock() }
-func (r *harnessRun) noteReach(l string)  { r.mu.Lock(); r.reaches[l]++; r.mu.Unlock() }
+func (r *harnessRun) noteStub(n string)  { r.mu.Lock(); r.stubs[n]++; r.mu.Unlock() }
+func (r *harnessRun) noteStale()         { r.mu.Lock(); r.staleObjs++; r.mu.Unlock() }
+func (r *harnessRun) noteCross()         { r.mu.Lock(); r.crossChecks++; r.mu.Unlock() }
+func (r *harnessRun) noteReach(l string) { r.mu.Lock(); r.reaches[l]++; r.mu.Unlock() }
 func (r *harnessRun) noteSummary(n int) {
 	r.mu.Lock()
 	r.summaries++
